@@ -218,6 +218,10 @@ Definition hooks (tr : list event) : list (Z * Z) :=
 Definition logs (tr : list event) : list (Z * Z * Z) :=
   flat_map (fun e => match e with ELog n d m => [(n, d, m)] | _ => [] end) tr.
 Definition attempts (tr : list event) : nat := length (calls tr).
+(** the error value each Logger.Error call is given: [err] of the attempt that just failed,
+    i.e. of invocation retry_no (retry.go l.78: the same variable the loop returns at the end) *)
+Definition log_errs (h : nat -> outcome) (tr : list event) : list N :=
+  map (fun x => snd (h (Z.to_nat (fst (fst x))))) (logs tr).
 
 Fixpoint seq_from (k n : nat) : list nat :=
   match n with O => [] | S n' => k :: seq_from (S k) n' end.
